@@ -449,6 +449,14 @@ def r3_nul_trim(r, facts):
     nul_search = [x for x in subexprs(e) if x[0] == 'call' and x[1] in NUL_SEARCH]
     r.inst('from_pathname(%s)' % (str(e)[:200],), f.where(loc))
     r.require(bool(raw), 'unix::init/source', 'the path is not taken from the storage bytes', f.where(loc))
+    # .. at the *first* NUL: a forward search whose predicate is true for a zero byte
+    from . import c17
+    for l3, t3 in f.calls():
+        if (t3.get('callee') or '') in ('std::iter::Iterator::position', 'std::iter::Iterator::take_while') and not f.blocks[l3[0]]['cleanup']:
+            for wh, is_zero in c17.closure_zero_tests(f, facts, t3):
+                want_zero = (t3.get('callee') or '').endswith('position')
+                r.inst('NUL search predicate: byte %s 0 (%s)' % ('==' if is_zero else '!=', (t3.get('callee') or '').rsplit('::', 1)[1]), wh)
+                r.require(is_zero == want_zero, 'unix::init/nul-predicate', 'the path is cut at the first byte that is %s NUL: path names are cut at their first character / keep the terminator and read back as unnamed' % ('not' if not is_zero else ''), wh)
     r.require(bool(nul_search), 'unix::init/nul', 'the bytes given to from_pathname are the kernel-reported length including the terminating NUL (not cut at a NUL): from_pathname rejects them and every path-bound socket reads back as unnamed', f.where(loc))
     # abstract names are *all* bytes the kernel reported after the leading NUL: NUL bytes are part of the name,
     # so nothing may be searched for / trimmed off before from_abstract_name
